@@ -5,6 +5,7 @@
 import LyonVerif.Drive.Common
 import LyonVerif.Model.Geom.Flatten
 import LyonVerif.Model.Geom.FlattenCert
+import LyonVerif.Drive.FlatChkIO
 
 namespace Lyon.Drive.C09
 open Lyon Lyon.Drive
@@ -97,7 +98,9 @@ def families : List Family := [
   ⟨"pcubic", pcubic (α := Float32), pcubic (α := Float)⟩,
   ⟨"quad", quad (α := Float32), quad (α := Float)⟩,
   ⟨"cubic", cubic (α := Float32), cubic (α := Float)⟩,
-  ⟨"arc", arc (α := Float32), arc (α := Float)⟩ ]
+  ⟨"arc", arc (α := Float32), arc (α := Float)⟩,
+  -- verified exact checker on lyon's own output (CHECK lines; Props/C09c.lean)
+  Family.plain "chk_flat" FlatChkIO.handle ]
 
 end Lyon.Drive.C09
 
